@@ -4,6 +4,7 @@ use crate::prng::Prng;
 use crate::report::Report;
 
 pub mod c03;
+pub mod c07;
 pub mod common;
 
 #[derive(Clone, Copy, Debug, PartialEq, Eq)]
@@ -32,6 +33,7 @@ pub trait Monitor {
 pub fn make(prop: &str) -> Option<Box<dyn Monitor>> {
     match prop {
         "C03" => Some(Box::new(c03::C03::new())),
+        "C07" => Some(Box::new(c07::C07::new())),
         _ => None,
     }
 }
